@@ -1178,6 +1178,32 @@ fn gen_random(rng: &mut Rng, len: usize) -> Vec<Act> {
             _ => Act::RelayViaB { c: conn(rng) },
         };
         acts.push(a);
+        // motif: one key on two connections while a challenge is outstanding on the first, then the
+        // answer to the first connection's challenge is delivered on the second
+        if rng.chance(1, 40) {
+            let a = conn(rng);
+            let mut b = conn(rng);
+            if b == a {
+                b = a % 3 + 1;
+            }
+            let k = *rng.pick(&[2u64, 3, 4]);
+            acts.push(Act::New(a));
+            if a == 1 {
+                acts.push(Act::Chal { c: 1, x: Val::Fresh });
+            }
+            acts.push(genuine(a, k));
+            acts.push(Act::Disc(a, rng.chance(1, 2)));
+            acts.push(Act::New(a));
+            if a == 1 || rng.chance(1, 2) {
+                acts.push(Act::Chal { c: a, x: Val::Fresh });
+            }
+            acts.push(Act::New(b));
+            if b == 1 {
+                acts.push(Act::Chal { c: 1, x: Val::Fresh });
+            }
+            acts.push(genuine(b, k));
+            acts.push(Act::Resp { c: b, key: k, over: Val::Issued(a, 0), sig: SigKind::Valid, ver: VerKind::Same, echo: Val::Fresh });
+        }
     }
     acts
 }
@@ -1355,6 +1381,32 @@ fn scripted() -> Vec<(&'static str, Vec<Act>)> {
             Act::New(1),
             Act::Chal { c: 1, x: Val::Fresh },
             genuine(1, HONEST),
+        ],
+    ));
+    // the same key on two connections while a challenge is outstanding on the first: entry 1 (key 2,
+    // re-dialled, mid re-handshake) is merged into connection 3 when key 2 authenticates there; the
+    // answer to connection 1's challenge must not be accepted on connection 3
+    v.push((
+        "merge-with-outstanding-challenge",
+        vec![
+            Act::New(1),
+            Act::Chal { c: 1, x: Val::Fresh },
+            genuine(1, HONEST),
+            Act::Disc(1, true),
+            Act::New(1),
+            Act::Chal { c: 1, x: Val::Fresh },
+            Act::New(3),
+            genuine(3, HONEST),
+            Act::Resp { c: 3, key: HONEST, over: Val::Issued(1, 0), sig: SigKind::Valid, ver: VerKind::Same, echo: Val::Fresh },
+            // same shape between two incoming connections
+            Act::New(2),
+            genuine(2, 4),
+            Act::Disc(2, false),
+            Act::New(2),
+            Act::New(1),
+            Act::Chal { c: 1, x: Val::Fresh },
+            genuine(1, 4),
+            Act::Resp { c: 1, key: 4, over: Val::Issued(2, 0), sig: SigKind::Valid, ver: VerKind::Same, echo: Val::Zero },
         ],
     ));
     // every version class, upward and downward, each on a fresh challenge
